@@ -249,7 +249,19 @@ func (w *vWorld) chunkRsp(o *vOut, kind string) *message.GetBlockChunksRsp {
 		}
 		vs = append(vs, 2)
 		if len(w.peers) >= 2 {
-			vs = append(vs, 3)
+			// attributing the blocks to another peer is only a non-matching response if that peer never had this task
+			other := w.peerIdx(req.ToWhom)%len(w.peers) + 1
+			clean := true
+			w.mu.Lock()
+			for _, t := range w.tasks {
+				if t.first == o.first && t.peer != nil && t.peer.No == other-1 {
+					clean = false
+				}
+			}
+			w.mu.Unlock()
+			if clean {
+				vs = append(vs, 3)
+			}
 		}
 		v := vs[w.rng.Intn(len(vs))]
 		switch v {
@@ -850,6 +862,10 @@ func runBehaviour(par vParams, b *vBehaviour, seed int64, shortTO time.Duration)
 	res := vRunResult{step: -1}
 	for i := range b.Steps {
 		d := w.doStep(b.Steps, i)
+		w.mu.Lock()
+		o := w.snapshot()
+		w.mu.Unlock()
+		w.logf("step %d %s -> reqs=%v selfq=%v dlv=%v %s", i, b.Steps[i].Act.Name, o.reqs, o.selfq, o.dlv, w.debugBF())
 		w.armFirstHashTimer()
 		if d != "" {
 			if d != "blocked" {
@@ -891,6 +907,18 @@ func runBehaviour(par vParams, b *vBehaviour, seed int64, shortTO time.Duration)
 	return res
 }
 
+var vDebug = os.Getenv("VERIF_SYNCER_DEBUG") != ""
+
+// debugBF prints the block fetcher's queues (racy; debugging aid only)
+func (w *vWorld) debugBF() string {
+	bf := w.sy.blockFetcher
+	if bf == nil {
+		return ""
+	}
+	return fmt.Sprintf("run=%d pend=%d retry=%d free=%d bad=%d connq=%d", bf.runningQueue.Len(), bf.pendingQueue.Len(), bf.retryQueue.Len(),
+		bf.peers.free, bf.peers.bad, len(bf.blockProcessor.connQueue))
+}
+
 // ---------------------------------------------------------------- test entry
 
 func TestVerifSyncer(t *testing.T) {
@@ -925,8 +953,12 @@ func TestVerifSyncer(t *testing.T) {
 	divergences := 0
 	badRuns := 0
 	skipped := 0
+	only := os.Getenv("VERIF_SYNCER_ONLY")
 	for bi := range in.Behaviours {
 		b := &in.Behaviours[bi]
+		if only != "" && b.ID != only {
+			continue
+		}
 		wg.Add(1)
 		sem <- struct{}{}
 		go func(bi int) {
@@ -967,6 +999,9 @@ func TestVerifSyncer(t *testing.T) {
 				divMu.Lock()
 				divergences++
 				divMu.Unlock()
+				if vDebug {
+					fmt.Println(strings.Join(r.log, "\n"))
+				}
 				res.Note("DIVERGENCE behaviour %s chains %+v: %s (tainted=%v) log=%v", b.ID, b.Ch, r.diverged, r.tainted, r.log)
 			}
 		}(bi)
